@@ -10,6 +10,7 @@ open Hpx Hpx.Ring Hpx.Proj
 
 /-! ## the 1×1 box, exactly -/
 
+set_option linter.unusedSimpArgs false in
 /-- `deal_with_1x1_box` and `dldh_to_dxdy` together: the box `(a, b)` with fractional parts `(dl, dh)` is sent to the
     ring `k` and index `i'` of the diamond that owns the point, and `(dx, dy)` are the coordinates of the point in that
     diamond: with `A = 2i' + (k+1) mod 2` (abscissa of the diamond's centre in half-boxes),
@@ -54,7 +55,7 @@ theorem box_exact (a b : ℕ) (dl dh : ℝ) (hl0 : 0 ≤ dl) (hl1 : dl < 1) (hh0
     simp only [show (1 : ℕ) >>> 1 = 0 from rfl, show (0 : ℕ) >>> 1 = 0 from rfl, show (1 : ℕ) >>> 0 = 1 from rfl,
       show (0 : ℕ) >>> 0 = 0 from rfl, Nat.add_zero]
     refine ⟨by push_cast; ring, by push_cast; ring, by linarith, by linarith, by linarith, by linarith,
-      by omega, by omega, by omega, by omega, by omega⟩
+      by omega, by omega, by omega, by omega, fun _ => trivial⟩
   · have d3 : dh + dl - 1 < 0 := by linarith
     have d4 : dh - dl < 0 := by linarith
     simp only [c1, c2, d3, d4, decide_true, decide_false, if_true, if_false, Bool.false_eq_true]
@@ -65,5 +66,375 @@ theorem box_exact (a b : ℕ) (dl dh : ℝ) (hl0 : 0 ≤ dl) (hl1 : dl < 1) (hh0
       show (0 : ℕ) >>> 0 = 0 from rfl, Nat.add_zero]
     refine ⟨by push_cast; ring, by push_cast; ring, by linarith, by linarith, by linarith, by linarith,
       by omega, by omega, by omega, by omega, by omega⟩
+
+/-- a general point of the projection plane enters the integer tail with a ring `K` and an index `I'` such that the
+    diamond centred at `((2I' + (K+1) mod 2)/n, K/n − 3)` owns the point, at offsets `(dx, dy) = dldh_to_dxdy dl dh` -/
+theorem hashPlane_general (debug : Bool) {n : Nat} (hn : 1 ≤ n) (hn30 : n < 2 ^ 30) {X Y : ℝ} (hX0 : 0 ≤ X) (hX8 : X < 8)
+    (hY0 : -2 ≤ Y) (hY2 : Y ≤ 2) :
+    ∃ (K I' : ℕ) (dl dh : ℝ), hashPlane debug n X Y = hashTail debug n dl dh K I' ∧
+      0 ≤ dl ∧ dl < 1 ∧ 0 ≤ dh ∧ dh < 1 ∧
+      (n : ℝ) * X - ((2 * I' + (K + 1) % 2 : ℕ) : ℝ) = (dldhToDxDy dl dh).1 - (dldhToDxDy dl dh).2 ∧
+      (n : ℝ) * (Y + 3) - (K : ℝ) = (dldhToDxDy dl dh).1 + (dldhToDxDy dl dh).2 - 1 ∧
+      0 ≤ (dldhToDxDy dl dh).1 ∧ (dldhToDxDy dl dh).1 < 1 ∧ 0 ≤ (dldhToDxDy dl dh).2 ∧ (dldhToDxDy dl dh).2 < 1 ∧
+      I' ≤ 4 * n ∧ (I' = 4 * n → K % 2 = 1) := by
+  have hn0 : (0 : ℝ) < n := by exact_mod_cast hn
+  have h1 : 0 ≤ 1 / 2 * (n : ℝ) * X := by positivity
+  have h2 : 0 ≤ 1 / 2 * (n : ℝ) * (Y + 3) := by
+    have : 0 ≤ Y + 3 := by linarith
+    positivity
+  have ha1 := Nat.floor_le h1
+  have ha2 := Nat.lt_floor_add_one (1 / 2 * (n : ℝ) * X)
+  have hb1 := Nat.floor_le h2
+  have hb2 := Nat.lt_floor_add_one (1 / 2 * (n : ℝ) * (Y + 3))
+  generalize ⌊1 / 2 * (n : ℝ) * X⌋₊ = a at ha1 ha2
+  generalize ⌊1 / 2 * (n : ℝ) * (Y + 3)⌋₊ = b at hb1 hb2
+  have hbox := hashPlane_box debug hn hn30 hX0 hX8 hY0 hY2 a b ha1 ha2 hb1 hb2
+  obtain ⟨e1, e2, d1, d2, d3, d4, -, -, k1, k2, k3⟩ :=
+    box_exact a b (1 / 2 * n * X - a) (1 / 2 * n * (Y + 3) - b) (by linarith) (by linarith) (by linarith) (by linarith)
+  have ha4 : a < 4 * n := by
+    have : (a : ℝ) < 4 * n := by nlinarith
+    exact_mod_cast this
+  refine ⟨_, _, _, _, hbox, by linarith, by linarith, by linarith, by linarith, ?_, ?_, d1, d2, d3, d4, by omega,
+    fun h => k3 (by omega)⟩
+  · rw [← e1]; ring
+  · rw [← e2]; ring
+
+/-! ## which cell owns the diamond `(K, I')` -/
+
+theorem hashTail_eq_branch {α : Type} [Num α] (debug : Bool) {n r : Nat} (dl dh : α) (I : Nat) (hn : 1 ≤ n) (h1 : n ≤ r)
+    (h2 : r < 3 * n) :
+    hashTail debug n dl dh (5 * n - 1 - r) I
+      = some (tri4 n + (r - n) * (n <<< 2) + (if I == n <<< 2 then 0 else I), dl, dh) := by
+  unfold hashTail
+  rw [if_neg (by omega), sub64_of_le (by omega : 1 ≤ 5 * n)]
+  simp only []
+  rw [sub64_of_le (by omega : 5 * n - 1 - r ≤ 5 * n - 1)]
+  simp only []
+  have ek : 5 * n - 1 - (5 * n - 1 - r) = r := by omega
+  rw [ek, if_neg (by omega), if_neg (by omega), if_neg (by omega)]
+
+/-- in the (proper) equatorial branch the index `4n` (east border of the plane) is folded onto `0` -/
+theorem hashTail_wrap {α : Type} [Num α] (debug : Bool) {n r : Nat} (dl dh : α) (hn : 1 ≤ n) (h1 : n ≤ r) (h2 : r < 3 * n) :
+    hashTail debug n dl dh (5 * n - 1 - r) (4 * n) = hashTail debug n dl dh (5 * n - 1 - r) 0 := by
+  rw [hashTail_eq_branch debug dl dh _ hn h1 h2, hashTail_eq_branch debug dl dh _ hn h1 h2]
+  have e4 : n <<< 2 = 4 * n := by rw [Nat.shiftLeft_eq]; omega
+  have e5 : (0 == 4 * n) = false := by simp; omega
+  simp [e4, e5]
+
+/-- equatorial-type rings `2n ≤ K ≤ 4n` (the transition rings included): every diamond is a cell -/
+theorem cell_of_eq {α : Type} [Num α] (debug : Bool) {n K I' : Nat} (dl dh : α) (hn : 1 ≤ n) (hn30 : n < 2 ^ 30)
+    (hK1 : 2 * n ≤ K) (hK2 : K ≤ 4 * n) (hI : I' ≤ 4 * n) (hI4 : I' = 4 * n → K % 2 = 1) :
+    ∃ r i, r < 4 * n - 1 ∧ i < 4 * perFacet n r ∧ K = 5 * n - 1 - r ∧ K + r + 1 = 5 * n ∧
+      hashTail debug n dl dh K I' = some (ringStart n r + i, dl, dh) ∧
+      (cxI n r i = 2 * I' + (K + 1) % 2 ∨ cxI n r i + 8 * n = 2 * I' + (K + 1) % 2) := by
+  have hr : 5 * n - 1 - K < 4 * n - 1 := by omega
+  have hm : perFacet n (5 * n - 1 - K) = n := by unfold perFacet; rw [if_neg (by omega), if_pos (by omega)]
+  have hc : cxOff n (5 * n - 1 - K) = (K + 1) % 2 := by
+    unfold cxOff; rw [if_neg (by omega), if_pos (by omega)]; omega
+  have hcx : ∀ i, cxI n (5 * n - 1 - K) i = 2 * i + (K + 1) % 2 := by
+    intro i
+    have hdm := Nat.div_add_mod i n
+    unfold cxI; rw [hm, hc, Nat.mul_assoc]; omega
+  have hK : K = 5 * n - 1 - (5 * n - 1 - K) := by omega
+  by_cases h4 : I' < 4 * n
+  · refine ⟨5 * n - 1 - K, I', hr, by rw [hm]; omega, hK, by omega, ?_, Or.inl (hcx I')⟩
+    have := hashTail_ring debug (r := 5 * n - 1 - K) (i := I') dl dh hn hn30 hr (by rw [hm]; omega)
+    rw [hcx, ← hK] at this
+    rw [← this]; congr 1; omega
+  · have e : I' = 4 * n := by omega
+    have hodd := hI4 e
+    refine ⟨5 * n - 1 - K, 0, hr, by rw [hm]; omega, hK, by omega, ?_, Or.inr (by rw [hcx]; omega)⟩
+    have := hashTail_ring debug (r := 5 * n - 1 - K) (i := 0) dl dh hn hn30 hr (by rw [hm]; omega)
+    rw [hcx, ← hK] at this
+    rw [e, hK, hashTail_wrap debug dl dh hn (by omega) (by omega), ← hK, ← this]
+    congr 1; omega
+
+/-- polar-cap rings: `off ≥ 1` rings away from the transition ring, `n − off` cells per facet; a diamond whose centre
+    abscissa `A` lies within the facet triangle (`|A − (2q+1)n| ≤ n − off − 1`, right parity) is a cell -/
+theorem cell_of_cap {α : Type} [Num α] (debug : Bool) {n r off q I' e : Nat} (dl dh : α) (hn : 1 ≤ n) (hn30 : n < 2 ^ 30)
+    (hr : r < 4 * n - 1) (hoff : off < n) (hm : perFacet n r = n - off) (hc : cxOff n r = off + 1) (hq : q < 4)
+    (he : e = (off + 1) % 2) (hA1 : 2 * (n * q) + off + 1 ≤ 2 * I' + e) (hA2 : 2 * I' + e + off + 1 ≤ 2 * (n * q) + 2 * n) :
+    ∃ i, i < 4 * perFacet n r ∧ hashTail debug n dl dh (5 * n - 1 - r) I' = some (ringStart n r + i, dl, dh) ∧
+      cxI n r i = 2 * I' + e := by
+  have hj : (2 * I' + e - 2 * (n * q) - off - 1) / 2 < n - off := by omega
+  have hcx : cxI n r (q * perFacet n r + (2 * I' + e - 2 * (n * q) - off - 1) / 2) = 2 * I' + e := by
+    rw [cxI_facet (by rw [hm]; exact hj), hc, Nat.mul_assoc]; omega
+  have hi : q * perFacet n r + (2 * I' + e - 2 * (n * q) - off - 1) / 2 < 4 * perFacet n r := by
+    rw [hm]
+    have : q * (n - off) ≤ 3 * (n - off) := Nat.mul_le_mul_right _ (by omega)
+    omega
+  refine ⟨_, hi, ?_, hcx⟩
+  have := hashTail_ring debug (r := r) dl dh hn hn30 hr hi
+  rw [hcx] at this
+  rw [← this]; congr 1; omega
+
+/-! ## the hash of a general point -/
+
+/-- the part of the projection plane on which the RING hash is proved correct: the equatorial band `−1 ≤ y < 1`, the
+    interior of the four north Collignon triangles together with their open base (`y = 1`, `x ≠ 0, 2, 4, 6`), the four
+    CLOSED south triangles (edges and south pole included: a diamond owns its two southern edges, so the southern
+    seams are harmless in exact arithmetic).  What is left out of the projected domain is exactly the two slanted edges
+    of the north triangles (`|x − (2q+1)| = 2 − y`, `1 ≤ y ≤ 2`: the seams `lon = q·π/2` of the north cap, the base-cell
+    corners `(2q, 1)` and the north pole included). -/
+def GoodPoint (X Y : ℝ) : Prop :=
+  0 ≤ X ∧ X < 8 ∧
+  ((-1 ≤ Y ∧ Y < 1) ∨
+   (1 ≤ Y ∧ Y < 2 ∧ ∃ q : ℕ, q < 4 ∧ |X - (2 * q + 1)| < 2 - Y) ∨
+   (-2 ≤ Y ∧ Y < -1 ∧ ∃ q : ℕ, q < 4 ∧ |X - (2 * q + 1)| ≤ 2 + Y))
+
+/-- the hypotheses are satisfiable: an equatorial point, a north-cap point, a south-cap point -/
+example : GoodPoint 7.5 0.25 ∧ GoodPoint 3.25 1.5 ∧ GoodPoint 0.5 (-1.5) := by
+  refine ⟨⟨by norm_num, by norm_num, Or.inl ⟨by norm_num, by norm_num⟩⟩,
+    ⟨by norm_num, by norm_num, Or.inr (Or.inl ⟨by norm_num, by norm_num, 1, by norm_num, ?_⟩)⟩,
+    ⟨by norm_num, by norm_num, Or.inr (Or.inr ⟨by norm_num, by norm_num, 0, by norm_num, ?_⟩)⟩⟩
+  · rw [abs_lt]; constructor <;> norm_num
+  · rw [abs_le]; constructor <;> norm_num
+
+/-- integer heart of `hashPlane_point`: the diamond `(K, I')` that owns a good point is a cell -/
+theorem point_core (debug : Bool) {n : Nat} (hn : 1 ≤ n) (hn30 : n < 2 ^ 30) {X Y : ℝ}
+    (hreg : (-1 ≤ Y ∧ Y < 1) ∨ (1 ≤ Y ∧ Y < 2 ∧ ∃ q : ℕ, q < 4 ∧ |X - (2 * q + 1)| < 2 - Y) ∨
+      (-2 ≤ Y ∧ Y < -1 ∧ ∃ q : ℕ, q < 4 ∧ |X - (2 * q + 1)| ≤ 2 + Y))
+    (K I' : ℕ) (dl dh dx dy : ℝ)
+    (eu : (n : ℝ) * X - ((2 * I' + (K + 1) % 2 : ℕ) : ℝ) = dx - dy) (ev : (n : ℝ) * (Y + 3) - (K : ℝ) = dx + dy - 1)
+    (x0 : 0 ≤ dx) (x1 : dx < 1) (y0 : 0 ≤ dy) (y1 : dy < 1) (hI : I' ≤ 4 * n) (hI4 : I' = 4 * n → K % 2 = 1) :
+    ∃ (r i : ℕ), r < 4 * n - 1 ∧ i < 4 * perFacet n r ∧
+      hashTail debug n dl dh K I' = some (ringStart n r + i, dl, dh) ∧
+      ((n : ℝ) * X = cxI n r i + (dx - dy) ∨ (n : ℝ) * X - 8 * n = cxI n r i + (dx - dy)) ∧
+      (n : ℝ) * Y = cyI n r + (dx + dy - 1) := by
+  have hn0 : (0 : ℝ) < n := by exact_mod_cast hn
+  -- the equatorial-type conclusion, shared by the three regions
+  have eqcase : 2 * n ≤ K → K ≤ 4 * n → ∃ (r i : ℕ), r < 4 * n - 1 ∧ i < 4 * perFacet n r ∧
+      hashTail debug n dl dh K I' = some (ringStart n r + i, dl, dh) ∧
+      ((n : ℝ) * X = cxI n r i + (dx - dy) ∨ (n : ℝ) * X - 8 * n = cxI n r i + (dx - dy)) ∧
+      (n : ℝ) * Y = cyI n r + (dx + dy - 1) := by
+    intro hK1 hK2
+    obtain ⟨r, i, hr, hi, -, hKr, ht, hcx⟩ := cell_of_eq debug dl dh hn hn30 hK1 hK2 hI hI4
+    have hcy : (cyI n r : ℝ) = (K : ℝ) - 3 * n := by
+      have : cyI n r = (K : ℤ) - 3 * (n : ℤ) := by unfold cyI; omega
+      rw [this]; push_cast; ring
+    refine ⟨r, i, hr, hi, ht, ?_, by rw [hcy]; linarith⟩
+    rcases hcx with h | h
+    · left; rw [h]; linarith
+    · right
+      have : ((cxI n r i : ℕ) : ℝ) + 8 * n = ((2 * I' + (K + 1) % 2 : ℕ) : ℝ) := by rw [← h]; push_cast; ring
+      linarith
+  rcases hreg with ⟨h1, h2⟩ | ⟨h1, h2, q, hq, hab⟩ | ⟨h1, h2, q, hq, hab⟩
+  · -- equatorial band
+    have hK1 : 2 * n ≤ K := by
+      have : 2 * (n : ℝ) < K + 1 := by nlinarith
+      have : 2 * n < K + 1 := by exact_mod_cast this
+      omega
+    have hK2 : K ≤ 4 * n := by
+      have : (K : ℝ) < 4 * n + 1 := by nlinarith
+      have : K < 4 * n + 1 := by exact_mod_cast this
+      omega
+    exact eqcase hK1 hK2
+  · -- north cap, strictly inside a facet triangle
+    have hK1 : 4 * n ≤ K := by
+      have : 4 * (n : ℝ) < K + 1 := by nlinarith
+      have : 4 * n < K + 1 := by exact_mod_cast this
+      omega
+    by_cases hK4 : K = 4 * n
+    · exact eqcase (by omega) (by omega)
+    · rw [abs_lt] at hab
+      have m1 : (n : ℝ) * (X - (2 * q + 1)) < n * (2 - Y) := mul_lt_mul_of_pos_left hab.2 hn0
+      have m2 : (n : ℝ) * (-(2 - Y)) < n * (X - (2 * q + 1)) := mul_lt_mul_of_pos_left hab.1 hn0
+      have c1 : ((2 * I' + (K + 1) % 2 : ℕ) : ℝ) + K < ((2 * q + 1) * n + 5 * n + 1 : ℕ) := by
+        push_cast; push_cast at eu; nlinarith
+      have c2 : (((2 * q + 1) * n + K : ℕ) : ℝ) < ((2 * I' + (K + 1) % 2 + 5 * n + 1 : ℕ) : ℝ) := by
+        push_cast; push_cast at eu; nlinarith
+      have c1' : 2 * I' + (K + 1) % 2 + K < (2 * q + 1) * n + 5 * n + 1 := by exact_mod_cast c1
+      have c2' : (2 * q + 1) * n + K < 2 * I' + (K + 1) % 2 + 5 * n + 1 := by exact_mod_cast c2
+      have eC : (2 * q + 1) * n = 2 * (n * q) + n := by ring
+      rw [eC] at c1' c2'
+      have hr : 5 * n - 1 - K < 4 * n - 1 := by omega
+      have hm : perFacet n (5 * n - 1 - K) = n - (K - 4 * n) := by
+        unfold perFacet; rw [if_pos (by omega)]; omega
+      have hc : cxOff n (5 * n - 1 - K) = (K - 4 * n) + 1 := by
+        unfold cxOff; rw [if_pos (by omega)]; omega
+      obtain ⟨i, hi, ht, hcx⟩ := cell_of_cap debug (n := n) (r := 5 * n - 1 - K) (off := K - 4 * n) (q := q) (I' := I')
+        (e := (K + 1) % 2) dl dh hn hn30 hr (by omega) hm hc hq (by omega) (by omega) (by omega)
+      have hK : 5 * n - 1 - (5 * n - 1 - K) = K := by omega
+      rw [hK] at ht
+      have hcy : (cyI n (5 * n - 1 - K) : ℝ) = (K : ℝ) - 3 * n := by
+        have : cyI n (5 * n - 1 - K) = (K : ℤ) - 3 * (n : ℤ) := by unfold cyI; omega
+        rw [this]; push_cast; ring
+      exact ⟨_, i, hr, hi, ht, Or.inl (by rw [hcx]; linarith),
+        by rw [hcy]; linarith⟩
+  · -- south cap, strictly inside a facet triangle
+    have hK2 : K ≤ 2 * n := by
+      have : (K : ℝ) < 2 * n + 1 := by nlinarith
+      have : K < 2 * n + 1 := by exact_mod_cast this
+      omega
+    by_cases hK4 : K = 2 * n
+    · exact eqcase (by omega) (by omega)
+    · rw [abs_le] at hab
+      have m1 : (n : ℝ) * (X - (2 * q + 1)) ≤ n * (2 + Y) := mul_le_mul_of_nonneg_left hab.2 (le_of_lt hn0)
+      have m2 : (n : ℝ) * (-(2 + Y)) ≤ n * (X - (2 * q + 1)) := mul_le_mul_of_nonneg_left hab.1 (le_of_lt hn0)
+      have c1 : ((2 * I' + (K + 1) % 2 + n : ℕ) : ℝ) < ((2 * q + 1) * n + K + 1 : ℕ) := by
+        push_cast; push_cast at eu; nlinarith
+      have c2 : (((2 * q + 1) * n + n : ℕ) : ℝ) < ((2 * I' + (K + 1) % 2 + K + 1 : ℕ) : ℝ) := by
+        push_cast; push_cast at eu; nlinarith
+      have c1' : 2 * I' + (K + 1) % 2 + n < (2 * q + 1) * n + K + 1 := by exact_mod_cast c1
+      have c2' : (2 * q + 1) * n + n < 2 * I' + (K + 1) % 2 + K + 1 := by exact_mod_cast c2
+      have eC : (2 * q + 1) * n = 2 * (n * q) + n := by ring
+      rw [eC] at c1' c2'
+      have hr : 5 * n - 1 - K < 4 * n - 1 := by omega
+      have hm : perFacet n (5 * n - 1 - K) = n - (2 * n - K) := by
+        unfold perFacet; rw [if_neg (by omega), if_neg (by omega)]; omega
+      have hc : cxOff n (5 * n - 1 - K) = (2 * n - K) + 1 := by
+        unfold cxOff; rw [if_neg (by omega), if_neg (by omega)]; omega
+      obtain ⟨i, hi, ht, hcx⟩ := cell_of_cap debug (n := n) (r := 5 * n - 1 - K) (off := 2 * n - K) (q := q) (I' := I')
+        (e := (K + 1) % 2) dl dh hn hn30 hr (by omega) hm hc hq (by omega) (by omega) (by omega)
+      have hK : 5 * n - 1 - (5 * n - 1 - K) = K := by omega
+      rw [hK] at ht
+      have hcy : (cyI n (5 * n - 1 - K) : ℝ) = (K : ℝ) - 3 * n := by
+        have : cyI n (5 * n - 1 - K) = (K : ℤ) - 3 * (n : ℤ) := by unfold cyI; omega
+        rw [this]; push_cast; ring
+      exact ⟨_, i, hr, hi, ht, Or.inl (by rw [hcx]; linarith),
+        by rw [hcy]; linarith⟩
+
+
+/-- core of items 4 and 5: on a good point the plane hash returns a cell `(r, i)` (in both profiles), and the point is
+    the point of offsets `(dx, dy) = dldh_to_dxdy dl dh ∈ [0,1)²` of that cell: `n·x = cxI + dx − dy` (modulo `8n`: a cell
+    centred on `x = 0` also owns the points just west of `x = 8`), `n·y = cyI + dx + dy − 1`. -/
+theorem hashPlane_point (debug : Bool) {n : Nat} (hn : 1 ≤ n) (hn30 : n < 2 ^ 30) {X Y : ℝ} (hg : GoodPoint X Y) :
+    ∃ (r i : ℕ) (dl dh : ℝ), r < 4 * n - 1 ∧ i < 4 * perFacet n r ∧
+      hashPlane debug n X Y = some (ringStart n r + i, dl, dh) ∧ 0 ≤ dl ∧ dl < 1 ∧ 0 ≤ dh ∧ dh < 1 ∧
+      0 ≤ (dldhToDxDy dl dh).1 ∧ (dldhToDxDy dl dh).1 < 1 ∧ 0 ≤ (dldhToDxDy dl dh).2 ∧ (dldhToDxDy dl dh).2 < 1 ∧
+      ((n : ℝ) * X = cxI n r i + ((dldhToDxDy dl dh).1 - (dldhToDxDy dl dh).2) ∨
+       (n : ℝ) * X - 8 * n = cxI n r i + ((dldhToDxDy dl dh).1 - (dldhToDxDy dl dh).2)) ∧
+      (n : ℝ) * Y = cyI n r + ((dldhToDxDy dl dh).1 + (dldhToDxDy dl dh).2 - 1) := by
+  obtain ⟨hX0, hX8, hreg⟩ := hg
+  have hY0 : -2 ≤ Y := by rcases hreg with h | h | h <;> linarith [h.1]
+  have hY2 : Y ≤ 2 := by
+    rcases hreg with h | h | h
+    · linarith [h.2]
+    · linarith [h.2.1]
+    · linarith [h.2.1]
+  obtain ⟨K, I', dl, dh, hP, l0, l1, g0, g1, eu, ev, x0, x1, y0, y1, hI, hI4⟩ :=
+    hashPlane_general debug hn hn30 hX0 hX8 hY0 hY2
+  obtain ⟨r, i, hr, hi, ht, hx, hy⟩ := point_core debug hn hn30 hreg K I' dl dh _ _ eu ev x0 x1 y0 y1 hI hI4
+  exact ⟨r, i, dl, dh, hr, hi, by rw [hP, ht], l0, l1, g0, g1, x0, x1, y0, y1, hx, hy⟩
+
+theorem abs_offsets_le {dx dy : ℝ} (x0 : 0 ≤ dx) (x1 : dx < 1) (y0 : 0 ≤ dy) (y1 : dy < 1) :
+    |dx - dy| + |dx + dy - 1| ≤ 1 := by
+  rcases abs_cases (dx - dy) with h | h <;> rcases abs_cases (dx + dy - 1) with h' | h' <;> linarith [h.1, h'.1]
+
+/-- `ring_hash_plane_range` + `ring_hash_contains`, **partial** (task item 4): for every `nside = n ≥ 1` and every
+    `GoodPoint` of the projection plane, `hashPlane` returns (in both profiles) a cell number `h < 12 n²` and box
+    offsets in `[0,1)²`, and the closed diamond of half-diagonal `1/n` around the centre of `h` contains the point
+    (modulo 8 in `x`: the cells centred on `x = 0` straddle the cut `x = 0 ≡ 8`).
+    What is missing with respect to the full statement: the points of the projected domain that are not `GoodPoint`s,
+    i.e. the seams between the polar-cap facets and the two poles.  The statement is FALSE there (finding F3), see
+    `hashPlane_seam_north_west`, `seam_witness_*` below. -/
+theorem ring_hash_contains_partial (debug : Bool) {n : Nat} (hn : 1 ≤ n) (hn30 : n < 2 ^ 30) (hRI : RingIndexExact n)
+    {X Y : ℝ} (hg : GoodPoint X Y) :
+    ∃ (h : ℕ) (dl dh cx cy : ℝ), hashPlane debug n X Y = some (h, dl, dh) ∧ h < 12 * n * n ∧
+      0 ≤ dl ∧ dl < 1 ∧ 0 ≤ dh ∧ dh < 1 ∧ centerOfProjectedCell (α := ℝ) debug n h = some (cx, cy) ∧
+      (|X - cx| + |Y - cy| ≤ 1 / n ∨ |X - 8 - cx| + |Y - cy| ≤ 1 / n) := by
+  obtain ⟨r, i, dl, dh, hr, hi, hP, l0, l1, g0, g1, x0, x1, y0, y1, hx, hy⟩ := hashPlane_point debug hn hn30 hg
+  have hn0 : (0 : ℝ) < n := by exact_mod_cast hn
+  have hab := abs_offsets_le x0 x1 y0 y1
+  generalize (dldhToDxDy dl dh).1 = dx at *
+  generalize (dldhToDxDy dl dh).2 = dy at *
+  refine ⟨_, dl, dh, _, _, hP, ringStart_add_lt hn hr hi, l0, l1, g0, g1, center_eq debug hn hn30 hRI hr hi, ?_⟩
+  have ey : Y - (cyI n r : ℝ) / n = (dx + dy - 1) / n := by field_simp; linarith
+  have hdiv : |dx - dy| / (n : ℝ) + |dx + dy - 1| / n ≤ 1 / n := by
+    rw [← add_div]; exact div_le_div_of_nonneg_right hab (le_of_lt hn0)
+  rcases hx with h | h
+  · left
+    have ex : X - (cxI n r i : ℝ) / n = (dx - dy) / n := by field_simp; linarith
+    rw [ex, ey, abs_div, abs_div, abs_of_pos hn0]; exact hdiv
+  · right
+    have ex : X - 8 - (cxI n r i : ℝ) / n = (dx - dy) / n := by field_simp; linarith
+    rw [ex, ey, abs_div, abs_div, abs_of_pos hn0]; exact hdiv
+
+/-- `ring_hash_plane_range`, **partial**: the cell number is in range on every `GoodPoint` (missing: the seams, where it
+    is false in the release profile, cf. `seam_witness_release`) -/
+theorem ring_hash_plane_range_partial (debug : Bool) {n : Nat} (hn : 1 ≤ n) (hn30 : n < 2 ^ 30) {X Y : ℝ}
+    (hg : GoodPoint X Y) : ∃ (h : ℕ) (dl dh : ℝ), hashPlane debug n X Y = some (h, dl, dh) ∧ h < 12 * n * n := by
+  obtain ⟨r, i, dl, dh, hr, hi, hP, -⟩ := hashPlane_point debug hn hn30 hg
+  exact ⟨_, dl, dh, hP, ringStart_add_lt hn hr hi⟩
+
+/-! ## `sph_coo` inverts `hash_with_dxdy` -/
+
+/-- the plane part of `hash_with_dxdy` -/
+def hashPlaneDxDy {α : Type} [Num α] (debug : Bool) (nside : Nat) (X Y : α) : Option (Nat × α × α) :=
+  (hashPlane debug nside X Y).map fun r => let d := dldhToDxDy r.2.1 r.2.2; (r.1, d.1, d.2)
+
+theorem hashWithDxDy_eq {α : Type} [Num α] (debug : Bool) (nside : Nat) (lon lat : α) :
+    hashWithDxDy debug nside lon lat = (proj lon lat).bind (fun xy => hashPlaneDxDy debug nside xy.1 xy.2) := by
+  unfold hashWithDxDy hashPlaneDxDy
+  rw [hashWithDlDh_eq]
+  cases proj lon lat with
+  | none => rfl
+  | some xy => rfl
+
+/-- `ring_sph_coo_inverts` (task item 5), in the plane: on a `GoodPoint`, if `hash_with_dxdy` returns `(h, dx, dy)` then
+    `sph_coo(h, dx, dy)` is defined and is `unproj` of the original plane point (the offsets are automatically in
+    `[0,1)²` there; at a pole `hash_with_dldh` returns `(dl, dh) = (1, 1)`, i.e. `dx = 1`, which `sph_coo` rejects). -/
+theorem ring_sph_coo_inverts (debug : Bool) {n : Nat} (hn : 1 ≤ n) (hn30 : n < 2 ^ 30) (hRI : RingIndexExact n)
+    {X Y : ℝ} (hg : GoodPoint X Y) (h : ℕ) (dx dy : ℝ) (hh : hashPlaneDxDy debug n X Y = some (h, dx, dy)) :
+    sphCoo debug n h dx dy = unproj X Y ∧ 0 ≤ dx ∧ dx < 1 ∧ 0 ≤ dy ∧ dy < 1 := by
+  obtain ⟨r, i, dl, dh, hr, hi, hP, l0, l1, g0, g1, x0, x1, y0, y1, hx, hy⟩ := hashPlane_point debug hn hn30 hg
+  have hn0 : (0 : ℝ) < n := by exact_mod_cast hn
+  unfold hashPlaneDxDy at hh
+  rw [hP] at hh
+  simp only [Option.map_some, Option.some.injEq, Prod.mk.injEq] at hh
+  obtain ⟨rfl, rfl, rfl⟩ := hh
+  refine ⟨?_, x0, x1, y0, y1⟩
+  generalize (dldhToDxDy dl dh).1 = dx at *
+  generalize (dldhToDxDy dl dh).2 = dy at *
+  unfold sphCoo
+  have c1 : (Num.le (Num.zero : ℝ) dx && Num.lt dx (Num.one : ℝ)) = true := by
+    rw [r_le, r_lt, r_zero, r_one]; simp [x0, x1]
+  have c2 : (Num.le (Num.zero : ℝ) dy && Num.lt dy (Num.one : ℝ)) = true := by
+    rw [r_le, r_lt, r_zero, r_one]; simp [y0, y1]
+  rw [c1, c2, center_eq debug hn hn30 hRI hr hi]
+  simp only [Bool.not_true, Bool.false_eq_true, if_false, Option.bind_some, r_ofNat, r_one]
+  have ey : (cyI n r : ℝ) / n + (dx + dy - 1) / n = Y := by field_simp; linarith
+  rw [ey]
+  rcases hx with h | h
+  · have ex : (cxI n r i : ℝ) / n + (dx - dy) / n = X := by field_simp; linarith
+    rw [ex]
+    have : ensuresXIsPositive X = X := by
+      unfold ensuresXIsPositive
+      have : Num.lt X (Num.zero : ℝ) = false := by rw [r_lt, r_zero]; simpa using hg.1
+      rw [this]; simp
+    rw [this]
+  · have ex : (cxI n r i : ℝ) / n + (dx - dy) / n = X - 8 := by field_simp; linarith
+    rw [ex]
+    have : ensuresXIsPositive (X - 8) = X := by
+      unfold ensuresXIsPositive
+      have : Num.lt (X - 8) (Num.zero : ℝ) = true := by rw [r_lt, r_zero]; simpa using hg.2.1
+      rw [if_pos this, r_ofNat]; push_cast; ring
+    rw [this]
+
+theorem ensuresXIsPositive_idem {X : ℝ} (h : 0 ≤ ensuresXIsPositive X) :
+    ensuresXIsPositive (ensuresXIsPositive X) = ensuresXIsPositive X := by
+  generalize ensuresXIsPositive X = Z at h
+  unfold ensuresXIsPositive
+  have : Num.lt Z (Num.zero : ℝ) = false := by rw [r_lt, r_zero]; simpa using h
+  rw [this]; simp
+
+theorem hashPlane_ensures (debug : Bool) (n : Nat) {X : ℝ} (Y : ℝ) (h : 0 ≤ ensuresXIsPositive X) :
+    hashPlane debug n X Y = hashPlane debug n (ensuresXIsPositive X) Y := by
+  unfold hashPlane
+  rw [ensuresXIsPositive_idem h]
+
+/-- `ring_sph_coo_inverts` on the sphere: if `(lon, lat)` projects to `(X, Y)` and the projected point (with `x` brought
+    back to `[0, 8)` as the code does) is a `GoodPoint`, then `sph_coo` applied to the result `(h, dx, dy)` of
+    `hash_with_dxdy(lon, lat)` calls `unproj` on that very point.  (With `Proj.unproj_proj_real`, `unproj ∘ proj = id`,
+    this gives back `(lon, lat)` on the domain of that theorem.) -/
+theorem ring_sph_coo_inverts_sphere (debug : Bool) {n : Nat} (hn : 1 ≤ n) (hn30 : n < 2 ^ 30) (hRI : RingIndexExact n)
+    (lon lat X Y : ℝ) (hp : proj lon lat = some (X, Y)) (hg : GoodPoint (ensuresXIsPositive X) Y)
+    (h : ℕ) (dx dy : ℝ) (hh : hashWithDxDy debug n lon lat = some (h, dx, dy)) :
+    sphCoo debug n h dx dy = unproj (ensuresXIsPositive X) Y := by
+  rw [hashWithDxDy_eq, hp] at hh
+  simp only [Option.bind_some] at hh
+  unfold hashPlaneDxDy at hh
+  rw [hashPlane_ensures debug n Y hg.1] at hh
+  exact (ring_sph_coo_inverts debug hn hn30 hRI hg h dx dy hh).1
 
 end Hpx.RingReal
